@@ -127,8 +127,22 @@ def apply_selection_shape(ctx, rule='A5'):
     # the guard is `if edge[0] == choice_node and edge[1] == target_option_node: continue` -> on the F edge of
     # the conjunction nothing is implied atomically, so check structurally: the removal call is unreachable
     # from the T edge of that test
-    tests = [n for n in cfg.nodes if n.kind == 'test' and 'target_option_node' in norm(n.ast) and
-             'choice_node' in norm(n.ast) and isinstance(n.ast, ast.BoolOp) and isinstance(n.ast.op, ast.And)]
+    def selected_edge_test(e):
+        # true exactly for the edge (choice_node, target_option_node): both ends compared (conjunction), or the
+        # pair `edge[:2]` compared with the tuple of both (hoisted locals are read through)
+        e = expand_locals(fn, e)
+        t_ = norm(e)
+        if isinstance(e, ast.BoolOp) and isinstance(e.op, ast.And):
+            return 'target_option_node' in t_ and 'choice_node' in t_ and '[0]' in t_ and '[1]' in t_
+        if isinstance(e, ast.Compare) and len(e.ops) == 1 and isinstance(e.ops[0], ast.Eq):
+            sides = [e.left, e.comparators[0]]
+            tup = [x for x in sides if isinstance(x, ast.Tuple) and [norm(y) for y in x.elts] ==
+                   ['choice_node', 'target_option_node']]
+            sl = [x for x in sides if isinstance(x, ast.Subscript) and isinstance(x.slice, ast.Slice) and
+                  x.slice.lower is None and isinstance(x.slice.upper, ast.Constant) and x.slice.upper.value == 2]
+            return bool(tup) and bool(sl)
+        return False
+    tests = [n for n in cfg.nodes if n.kind == 'test' and selected_edge_test(n.ast)]
     ok = False
     detail = 'no test `edge[0] == choice_node and edge[1] == target_option_node` guarding the removal loop'
     for t in tests:
@@ -178,7 +192,9 @@ def resolve_single_shape(ctx, rule='A5'):
     fn = ctx.fn(f'{DSG}.resolve_single_selection_choices')
     cfg = build_cfg(fn)
     # the condition under which a choice is taken automatically holds exactly for 0 and 1 options
-    tests = [n for n in cfg.nodes if n.kind == 'test' and 'len(' in norm(n.ast) and 'opt' in norm(n.ast)]
+    unit = unit_functions(ctx.prog, fn)
+    tests = [n for u in unit for n in build_cfg(u).nodes
+             if n.kind == 'test' and 'len(' in norm(n.ast) and 'opt' in norm(n.ast)]
     ok = False
     detail = 'no test on the number of options'
     for t in tests:
@@ -210,6 +226,37 @@ def resolve_single_shape(ctx, rule='A5'):
         ok2 = 'get_ordered_next_choice_nodes' in it
         ctx.ob(rule, fkey(fn, rule, 'scan-active-choices'), ok2, f'{fn.module.relpath}:{f0.lineno}',
                'the scan for automatically resolvable choices iterates over the active next choice nodes', it)
+    if loops and not fors:
+        # extract-method form: `x = <obj>._next_candidate(); if x is None: break` - the loop is left only under the
+        # none-test of the helper's result, and the helper returns None only after its scan found no candidate
+        w = loops[0]
+        breaks = [n for n in cfg.nodes if n.kind == 'stmt' and isinstance(n.ast, ast.Break)]
+        exits = [b for b in breaks if any(m.id not in _loop_body_ids(cfg, w) for m, _ in b.succ)]
+        hs = {h.name: h for h in unit[1:]}
+        cand = [(norm(a.targets[0]), hs[call_name(a.value)]) for a in walk_fn(fn)
+                if isinstance(a, ast.Assign) and isinstance(a.value, ast.Call) and call_name(a.value) in hs and
+                isinstance(a.targets[0], ast.Name)]
+        for var, h in cand:
+            ne = cfg.edges_implying(guards.none_fact(var, True))
+            guarded = bool(exits) and all(not cfg.can_reach(cfg.entry, b, blocked_edges=ne) for b in exits) and \
+                not any(lab == 'F' for _, lab in w.succ)
+            hcfg = build_cfg(h)
+            hfors = [n for n in hcfg.nodes if n.kind == 'for']
+            if not (guarded and hfors):
+                continue
+            f0 = hfors[0]
+            f_edges = {(f0.id, m.id, lab) for m, lab in f0.succ if lab == 'F'}
+            none_exits = [n for n in hcfg.nodes if n.kind == 'stmt' and isinstance(n.ast, ast.Return) and
+                          (n.ast.value is None or (isinstance(n.ast.value, ast.Constant) and n.ast.value.value is None))]
+            falls = [p_ for p_, lab in hcfg.exit.pred if not (p_.kind == 'stmt' and isinstance(p_.ast, ast.Return))]
+            ok = all(not hcfg.can_reach(hcfg.entry, n, blocked_edges=f_edges) for n in none_exits) and \
+                all(not hcfg.can_reach(hcfg.entry, p_, blocked_edges=f_edges) or p_ is f0 for p_ in falls) and \
+                bool(none_exits or falls)
+            detail = f'loop left only when {h.name}() returned None, which it does only after its scan found no candidate'
+            it = norm(f0.ast.iter)
+            ctx.ob(rule, fkey(fn, rule, 'scan-active-choices'), 'get_ordered_next_choice_nodes' in it,
+                   f'{h.module.relpath}:{f0.lineno}',
+                   'the scan for automatically resolvable choices iterates over the active next choice nodes', it)
     ctx.ob(rule, fkey(fn, rule, 'terminates-only-when-none-left'), ok, fn.where,
            'automatic resolution stops only when a full scan of the active choices found none with <= 1 option',
            detail)
